@@ -10,7 +10,8 @@ IMPORTS, CASE_TYPE, CHECKER, SHOW, SHARD = c01.IMPORTS, c01.CASE_TYPE, c01.CHECK
 RULE = ("random problems (as C01/C02, user-defined specifications included); for each, the solve is first run to completion under the "
         "recorder (trace-exact model correspondence), then re-run once per chosen evaluation index k with the k-th evaluate call raising; "
         "after every abort and every natural NoSolutionError: length, hard restrictions, sequence_before, re-evaluation and re-solve "
-        "are checked; non-trivial = the abort happened after at least one sequence assignment differing from the start; distinct by (problem, k)")
+        "are checked (and that a failed exhaustive search restored the sequence it started from); direct searches are also called on "
+        "problems moved to another member of their space first, with a stream of cheap no-injection cases; non-trivial = the abort happened after at least one sequence assignment differing from the start; distinct by (problem, k)")
 MAX_FAULTS = {"quick": 12, "thorough": 400}
 
 
@@ -65,6 +66,11 @@ def fresh(p, entry):
     if entry == "optimize":
         np.random.seed(p["np_seed"])
         problem.resolve_constraints()
+    elif entry != "resolve" and p["np_seed"] % 2 == 1 and problem.mutation_space.multichoices:
+        # direct searches are also called on problems that were edited before: move to another member
+        # of the mutation space, so that the current sequence differs from the recorded input
+        np.random.seed(p["np_seed"] + 1)
+        problem.sequence = problem.mutation_space.apply_random_mutations(3, problem.sequence)
     return problem
 
 
@@ -122,6 +128,9 @@ def impl_case(case):
     res = dict(code=r["code"], exc=r["exc"], n_evals=n_evals, n_draws=len(r["log"]), final=r["final"],
                objective_classes=[type(o).__name__ for o in problem.objectives],
                term=solverrec.coq_run(r, p["cfg"], entry), faults=0, moved=0, bad=None)
+    if r["code"] == 1 and entry == "resolve_exhaustive" and problem.sequence != start:
+        res["bad"] = ("natural NoSolutionError", "the failed exhaustive search did not restore the sequence it started from")
+        return res
     if r["code"] == 1:
         why = usable(problem, n0, before0)
         if why:
@@ -129,6 +138,8 @@ def impl_case(case):
             return res
     if n_evals == 0 or n_evals > 4000:
         return res
+    if case[0] == "light":
+        return res          # natural outcome only (restoration / usability after NoSolutionError)
     budget = MAX_FAULTS[tier]
     ks = list(range(1, n_evals + 1))
     if len(ks) > budget:
@@ -171,6 +182,8 @@ def oracle(case, out):
     if "skipped" in o:
         return None
     if o["bad"]:
+        if o["bad"][0] == "natural NoSolutionError":
+            return "after a natural NoSolutionError of %s: %s" % (case[2], o["bad"][1])
         return "after an abort at evaluation %s: %s" % (o["bad"][0], o["bad"][1])
     return None
 
@@ -195,11 +208,17 @@ def gen_cases(rng, tier):
             p = c06.gen_small(rng)
             entry = rng.choice(["resolve_exhaustive", "resolve_random", "optimize_exhaustive", "optimize_random"])
         cases.append(("run", json.dumps(p, sort_keys=True), entry, tier))
+    # natural failures of the direct searches on edited problems (no fault injection: cheap, many)
+    for _ in range(5 * N):
+        p = c06.gen_small(rng)
+        p["np_seed"] = p["np_seed"] | 1          # odd seed: the problem is moved inside its space first
+        entry = rng.choice(["resolve_exhaustive", "resolve_exhaustive", "resolve_random", "optimize_exhaustive"])
+        cases.append(("light", json.dumps(p, sort_keys=True), entry, tier))
     return cases, {}
 
 
 def nontrivial(case, out):
-    return out[0] == "ok" and "skipped" not in out[1] and out[1]["moved"] > 0
+    return out[0] == "ok" and "skipped" not in out[1] and (out[1]["moved"] > 0 or (case[0] == "light" and out[1]["code"] == 1))
 
 
 def run(chk):
